@@ -48,3 +48,7 @@ CHECKS['C11'] = ('model_checking',
     'reference-model conformance by bounded exhaustive enumeration: 8 grammar shapes around an @name rule x 5 keyword sets x ignorecase {off, directive, setting} x every word sequence up to length 3/4 over keywords, keyword prefixes/suffixes and case variants; model vs reference evaluator, model vs generated parser, and model-free oracles (nothing the @name rule returns is a keyword; removing the decorator changes nothing on keyword-free inputs)',
     'trusted: the reference evaluator\'s keyword rule; @name bodies are single-string patterns',
     'explicit enumeration of programs x inputs x configurations against a reference model, every model trace replayed on the implementation')
+CHECKS['C06'] = ('model_checking',
+    'reference-model conformance by bounded exhaustive enumeration: 8 hand-written grammars (retry after backtracking, @nomemo, parameters, named, lookahead+closure, alias, Python-keyword rule names, left recursion) x all inputs up to length 4/5 x the complete semantics menu (none, identity, _default only, tagging with call log, FailedSemantics on every (rule, value) predicate, 10 exception types raised from each rule, declared parameters) on model and generated parser; plus every C01 expression that calls helper rules x {none, identity, tagging}; the reference evaluator runs the actions as call-backs without memoisation and yields the expected value and call multiset',
+    'trusted: the reference evaluator; the implementation may call an action fewer times than the memo-less reference but at least once per distinct successful (rule, position), and exactly as often for @nomemo rules',
+    'explicit enumeration of programs x inputs x semantics objects against a reference model, every model trace replayed on the implementation')
